@@ -1,7 +1,7 @@
 """String/bytes operations over ropes and windows. Each function takes the executor `ex`, a State and evaluated args
 and returns a list of Res (state, value, exc) -- most are deterministic and return one result with added assumptions.
 
-Semantics follow CPython; every operation here is differential-tested against CPython by pyvc.stubtest on small domains.
+Semantics follow CPython; every operation here is differential-tested against CPython by harness/stubtest.py on small domains.
 """
 import re as _re
 
